@@ -89,7 +89,8 @@ var flattenStream = (&StreamSpec{
 		// the follow-up rewriting fails on nested inline schemas
 		if sharedParamNameTwins(get(c.In, "bundle", "root")) {
 			for i := range fs {
-				if strings.Contains(fs[i].Signature, ":error:") || strings.Contains(fs[i].Signature, ":error-on-repeat:") {
+				if strings.Contains(fs[i].Signature, ":error:") || strings.Contains(fs[i].Signature, ":error-on-repeat:") ||
+					strings.Contains(fs[i].Signature, ":nondeterministic:") || strings.Contains(fs[i].Signature, ":second-error:") {
 					fs[i].Signature = "flatten:path-level-body-schema-named-per-operation-with-case-twin-names"
 				}
 			}
